@@ -20,8 +20,8 @@ def run(tier, seed):
         nops = 16
         import random
         rnd = random.Random(seed)
-        opsb = tuple(sorted(rnd.sample(range(14), 3) + [14, 15]))      # thorough: 5 of the 16 operations on the copy
-        sets = tuple(sorted([0] + rnd.sample(range(1, 16), 5)))        # and 6 of the 16 override sets, drawn from the seed
+        opsb = tuple(sorted(rnd.sample(range(14), 1) + [14, 15]))      # thorough: EVERY operation on the original, 3 of the 16 on the copy
+        sets = tuple(sorted({0, 14} | set(rnd.sample(range(1, 16), 2))))   # and 3-4 of the 16 override sets, drawn from the seed
         for t in range(3):
             for opa in (range(nops) if not quick else [3, 5, 14, 15]):
                 s = src.replace('__T__', str(t)).replace('__OPA__', str(opa))
@@ -32,7 +32,7 @@ def run(tier, seed):
                 h = Harness(ck, 'c17_copy_t%d_op%d' % (t, opa), s); hs.append(h)
                 batch.add(h, 300 if quick else 1500, only=['model_copy_ok'], ppt=120,
                           bounds='template %d, operation %d on the original, %s on the copy, 3 kinds of copy, with / without history, %s override sets' % (
-                              t, opa, '4 operations' if quick else '5 operations %r' % (opsb,), '3' if quick else '6 (%r)' % (sets,)))
+                              t, opa, '4 operations' if quick else '3 operations %r' % (opsb,), '3' if quick else '%d (%r)' % (len(sets), sets)))
             s = src.replace('__T__', str(t)).replace('__OPA__', '0')
             if quick:
                 s = s.replace('''    pre: sel(c0, c1) < 3
